@@ -600,6 +600,38 @@ def render_buildfile(shape):
     """shape: list of [section, kind]  (from spec/fn/BuildFileShape.tla)  ->  YAML text"""
     return "".join(SECTION_YAML[s][k] for s, k in shape)
 
+# value shapes below the section level (family "values" of BuildFileShape.tla)
+_EL = {"s": "x", "n": "", "q": "[a]", "eq": "[]", "m": "{a: b}", "em": "{}"}     # "n": an empty value is a NullNode ("~" is a plain scalar for llvm::yaml)
+_KEY = {"s": None, "q": "? [a] ", "m": "? {a: b} "}
+def render_value(v):
+    """value shape {top, el} -> YAML flow text"""
+    if v["top"] == "scalar": return "x"
+    if v["top"] == "null": return ""
+    if v["top"] == "seq": return "[" + ", ".join(_EL[e] for e in v["el"]) + "]"
+    parts = []
+    for i, (k, e) in enumerate(v["el"]):
+        parts.append(("k%d: %s" % (i + 1, _EL[e])) if k == "s" else (_KEY[k] + ": " + _EL[e]))
+    return "{" + ", ".join(parts) + "}"
+
+def render_value_doc(sec, attr, v):
+    """one build file in which the place <sec, attr> holds the value shape v (everything else is well-formed)"""
+    head = "client:\n  name: basic\n"
+    if attr in ("#entry", "#attr"):
+        key = "? [a] " if v["top"] == "seq" else "? {a: b} "
+        if attr == "#entry":
+            body = {"commands": "{tool: shell, args: [\"true\"]}", "tools": "{}", "nodes": "{}", "targets": "[out]"}[sec]
+            return head + "%s: {%s: %s}\n" % (sec, key, body)
+        inner = {"commands": "C1: {tool: shell, args: [\"true\"], %s: x}", "tools": "shell: {%s: x}", "nodes": "out: {%s: x}"}[sec] % key
+        return head + "%s: {%s}\n" % (sec, inner)
+    val = render_value(v)
+    if sec == "commands":
+        pre = "" if attr == "args" else "    args: [\"true\"]\n"
+        return head + "commands:\n  C1:\n    tool: shell\n%s    %s: %s\n" % (pre, attr, val)
+    if sec == "tools": return head + "tools:\n  shell:\n    %s: %s\n" % (attr, val)
+    if sec == "nodes": return head + "nodes:\n  out:\n    %s: %s\n" % (attr, val)
+    if sec == "targets": return head + "targets:\n  all: %s\n" % val
+    raise vlib.Infra("unknown section %r" % sec)
+
 def _bf_compare(docs, binary, asan, bad):
     """docs: list of dict(yaml, verdict, shape)"""
     lines = ["buildfile\t" + hx(d["yaml"]) for d in docs]; inputs = [d["yaml"].encode() for d in docs]
@@ -614,18 +646,24 @@ def _bf_compare(docs, binary, asan, bad):
         if not loaded and errs == 0:
             bad.append(dict(rec, fingerprint="buildfile silent-failure", what="build file [%s] failed to load without any error callback" % desc))
         if d["verdict"] == "loads" and (not loaded or errs):
-            bad.append(dict(rec, fingerprint="buildfile valid-rejected", what="well-formed build file [%s] was rejected (%s)" % (desc, r)))
+            bad.append(dict(rec, fingerprint="buildfile valid-rejected", what="well-formed build file [%s] %s was rejected (%s)" % (desc, show(d["yaml"].encode()), r)))
         if d["verdict"] == "error" and loaded and errs == 0:
-            bad.append(dict(rec, fingerprint="buildfile malformed-accepted", what="malformed build file [%s] loaded without any error callback" % desc))
+            bad.append(dict(rec, fingerprint="buildfile malformed-accepted", what="malformed build file [%s] %s loaded without any error callback" % (desc, show(d["yaml"].encode()))))
     if asan: safety_check("buildfile", lines, inputs, asan, "asan", bad, cases=docs)
 
 def buildfile_cases(tier, binary, asan=None):
-    """build-description loader against spec/fn/BuildFileShape.tla (section order / node kinds -> verdict class),
-    plus a hand list of root-level shapes (empty document, empty mapping, scalar / sequence root, two documents ...)"""
-    cases, p, out = tlc_cases("BuildFileShape.tla", "BuildFileShape.cfg", dict(Depth=1 if tier == "quick" else 2))
+    """build-description loader against spec/fn/BuildFileShape.tla:
+    family "sections" (section order / node kinds of whole sections -> verdict class), family "values" (the node kind at every
+    place the per-section parsers inspect: attribute values, elements of sequence-valued attributes, keys and values of
+    map-valued attributes, target node lists, entry and attribute keys), plus a hand list of root-level documents"""
+    cases, p, out = tlc_cases("BuildFileShape.tla", "BuildFileShape.cfg", dict(Depth=1 if tier == "quick" else 2, Family='"sections"'))
+    vcases, p2, out2 = tlc_cases("BuildFileShape.tla", "BuildFileShape.cfg", dict(Family='"values"'))
     bad = []; summary = Cases()
-    if p["violated"]: bad.append(dict(kind="spec", fingerprint="spec BuildFileShape %s" % p["violated"], what="invariant %s of BuildFileShape.tla violated" % p["violated"]))
+    for q in (p, p2):
+        if q["violated"]: bad.append(dict(kind="spec", fingerprint="spec BuildFileShape %s" % q["violated"], what="invariant %s of BuildFileShape.tla violated" % q["violated"]))
     docs = [dict(yaml=render_buildfile(c["shape"]), verdict=c["verdict"], shape=c["shape"]) for c in cases]
+    docs += [dict(yaml=render_value_doc(c["sec"], c["attr"], c["v"]), verdict=c["verdict"],
+                  shape=[[c["sec"], c["attr"]], ["value", (render_value(c["v"]) or "<null>") if c["attr"] not in ("#entry", "#attr") else c["v"]["top"] + "-key"]]) for c in vcases]
     docs += [dict(yaml=y, verdict="loads" if k == "flow" else "error", shape=[["root", k]]) for k, y in ROOT_DOCS.items()]
     n = len(docs); step = max(1, (n + vlib.NCPU - 1) // vlib.NCPU)
     def part(lo):
@@ -633,8 +671,10 @@ def buildfile_cases(tier, binary, asan=None):
     for mine in vlib.parallel(part, list(range(0, n, step))): bad.extend(mine)
     summary.n = n; summary.nontrivial = sum(1 for d in docs if d["verdict"] == "error")
     for v in ("loads", "error", "open"): summary.add(v, sum(1 for d in docs if d["verdict"] == v))
-    summary.samples = [dict(shape=d["shape"], verdict=d["verdict"]) for d in docs[:2] + docs[-2:]]
-    return summary, bad, p
+    summary.add("section_shapes", len(cases)); summary.add("value_shapes", len(vcases))
+    summary.samples = [dict(shape=d["shape"], verdict=d["verdict"]) for d in docs[:1] + docs[len(cases):len(cases) + 2] + docs[-1:]]
+    pm = merge_parse([p, p2])
+    return summary, bad, pm
 
 # ----------------------------------------------------------------------------- replay support
 def recheck(family, cases, binary, asan=None, workdir=None):
